@@ -6,6 +6,7 @@
 -/
 import IcingaProofs.C04.Lemmas
 import IcingaProofs.C04.TraceLemmas
+import IcingaProofs.C04.Completion
 import IcingaModel.C04.Spec
 
 namespace Icinga.C04
@@ -26,7 +27,7 @@ theorem one_location (n : Nat) (max : Int) (hm : 0 ≤ max) (acts : List Act) (s
   exact ⟨h.1, h.2.1⟩
 
 /-- the hypotheses of `one_location` are met on a non-trivial run: activate, resume, pick, pause while pending -/
-example : ((run (init 2 1) [.setActive 1 true, .setPaused 1 false, .objectHandler 1, .sched 1 5 true true true,
+example : ((run (init 2 1) [.setActive 1 true, .setPaused 1 false, .objectHandler 1, .sched 1 5 {},
     .setPaused 1 true, .objectHandler 1, .helperGuard 1]).map
       fun s => ((s.chk 1).inIdle, (s.chk 1).inPending, (s.chk 1).synced, (s.chk 1).hx)) = some (false, false, true, 1) := by
   decide
@@ -44,33 +45,38 @@ example : ((run (init 1 1) [.setActive 0 true, .setPaused 0 false, .objectHandle
     .nextCheckChanged 0]).map fun s => ((s.chk 0).inIdle, (s.chk 0).keySynced, (s.chk 0).idleKey)) = some (true, true, 77) := by
   decide
 
-/-- **single_flight.**  Under the property's event alphabet (no result from outside the execution itself —
-    Q-C04), for every interleaving at most one execution of a checkable is between a successful
-    `m_CheckRunning` test-and-set and its result — be it a command body inside the helper, a spawned plugin process, or
-    a finished process whose result is on its way to `ProcessCheckResult` — and one is iff the flag is set. -/
+/-- **single_flight.**  For every interleaving — passive results processed at any moment included (F-C04c, fixed by 1c45f06) — at
+    most one execution of a checkable is between a successful `m_CheckRunning` test-and-set and its result — be it a command body
+    inside the helper, a spawned plugin process, or a finished process whose result is on its way to `ProcessCheckResult` — and
+    one is iff the flag is set. -/
 theorem single_flight (n : Nat) (max : Int) (acts : List Act) (s : St)
-    (hp : ∀ a ∈ acts, a.isPassive = false) (hr : run (init n max) acts = some s) (c : Nat) :
+    (hr : run (init n max) acts = some s) (c : Nat) :
     (s.chk c).hx + (s.chk c).procs + (s.chk c).pz ≤ 1 ∧
     ((s.chk c).hx + (s.chk c).procs + (s.chk c).pz = 1 ↔ (s.chk c).running = true) := by
-  have h := flight_run acts _ s hp (fun _ => by unfold FlightInv init; rfl) hr c
+  have h := flight_run acts _ s (fun _ => by unfold FlightInv init; rfl) hr c
   unfold FlightInv at h
   cases hrun : (s.chk c).running <;> simp [hrun] at h ⊢ <;> omega
 
 /-- asynchronous execution: the helper has long finished, the checkable is idle again, and the process still holds the flag -/
-example : ((run (init 1 2) [.setActive 0 true, .setPaused 0 false, .objectHandler 0, .sched 0 0 true true true,
+example : ((run (init 1 2) [.setActive 0 true, .setPaused 0 false, .objectHandler 0, .sched 0 0 {},
     .helperGuard 0, .spawn 0, .pluginInc 0, .helperDec 0, .helperFinish 0, .setNextCheck 0 0, .nextCheckChanged 0,
-    .sched 0 0 true true true, .helperGuard 0]).map
+    .sched 0 0 {}, .helperGuard 0]).map
       fun s => ((s.chk 0).procs, (s.chk 0).running, (s.chk 0).hr, (s.chk 0).inPending, s.counter)) = some (1, true, 1, true, 2) := by
   decide
 
-/-- Q-C04, kept visible: a passive/cluster result that arrives during an execution resets the flag
-    (checkable-check.cpp:103-106), after which a second execution can start — the hypothesis of
-    `single_flight` cannot be dropped. -/
-theorem single_flight_counterexample_with_passive_result :
-    ((run (init 1 4) [.setActive 0 true, .setPaused 0 false, .objectHandler 0, .sched 0 0 true true true,
-        .helperGuard 0, .passiveResult 0, .setPaused 0 true, .objectHandler 0, .setPaused 0 false,
-        .objectHandler 0, .sched 0 0 true true true, .helperGuard 0]).map fun s => (s.chk 0).hx) = some 2 := by
-  decide
+/-- a passive result during an execution changes nothing: the forced second dispatch finds the guard busy and starts nothing -/
+example : ((run (init 1 4) [.setActive 0 true, .setPaused 0 false, .objectHandler 0, .sched 0 0 {}, .helperGuard 0, .spawn 0,
+    .passiveResult 0, .pluginInc 0, .helperDec 0, .helperFinish 0, .force 0, .sched 0 0 {}, .helperGuard 0]).map
+      fun s => ((s.chk 0).hx, (s.chk 0).procs, (s.chk 0).running, (s.chk 0).hr)) = some (0, 1, true, 1) := by decide
+
+/-- F-C04c, kept as documentation of the pre-fix code (not a transition of the model any more): before 1c45f06 a passive result
+    cleared the flag like every other result, which destroys the invariant behind `single_flight` in any state with an execution in
+    progress — the next test-and-set succeeds and a second execution starts. -/
+theorem passive_result_pre_fix_breaks_single_flight :
+    let x : Chk := { running := true, procs := 1 }
+    FlightInv x ∧ ¬ FlightInv x.passiveResultPreFix ∧ (x.passiveResultPreFix.helperGuard).running = true ∧
+      FlightInv x.passiveResult := by
+  unfold FlightInv; decide
 
 /-- **concurrency_bound.**  For every interleaving the number of command executions running at once — command bodies
     inside helpers plus *spawned, unfinished plugin processes*, over all checkables — never exceeds
@@ -91,21 +97,22 @@ theorem concurrency_bound (n : Nat) (max : Int) (hm : 0 ≤ max) (acts : List Ac
   exact ⟨by omega, by omega, h4, hinv.2.1⟩
 
 example : ((run (init 2 1) [.setActive 0 true, .setPaused 0 false, .objectHandler 0, .setActive 1 true,
-    .setPaused 1 false, .objectHandler 1, .sched 0 0 true true true, .helperGuard 0]).map
+    .setPaused 1 false, .objectHandler 1, .sched 0 0 {}, .helperGuard 0]).map
       fun s => (s.executing, s.counter, decide (schedEnabled s 1 0))) = some (1, 1, false) := by
   decide
 
 /-- kept visible: the *counter* itself is not bounded by `max_concurrent_checks` — between PluginCheckTask's `+1` and
     the helper's `-1` one check holds two units (here: max = 1, counter = 2, one process running) -/
 theorem counter_exceeds_max_with_plugins :
-    ((run (init 1 1) [.setActive 0 true, .setPaused 0 false, .objectHandler 0, .sched 0 0 true true true,
+    ((run (init 1 1) [.setActive 0 true, .setPaused 0 false, .objectHandler 0, .sched 0 0 {},
         .helperGuard 0, .spawn 0, .pluginInc 0]).map fun s => (s.counter, s.max, s.executing)) = some (2, 1, 1) := by
   decide
 
-/-- **next_check_window.**  `Checkable::UpdateNextCheck` (exact arithmetic): for every `now ≥ 0`, scheduling
-    offset `≥ 0` and interval `> 0` (check_interval, or retry_interval while soft) the next check lies in the
-    future and at most one interval ahead. -/
-theorem next_check_window (now off interval : Rat) (_hn : 0 ≤ now) (_ho : 0 ≤ off) (hi : 0 < interval) :
+/-- **next_check_window.**  `Checkable::UpdateNextCheck` (exact arithmetic): for every `now`, every scheduling
+    offset and every interval `> 0` (check_interval, or retry_interval while soft) the next check lies in the
+    future and at most one interval ahead.  (The trace validation evaluates the same window on the implementation's own
+    next_check after every execution — clause `next_check_window` — with the interval in force determined by the harness.) -/
+theorem next_check_window (now off interval : Rat) (hi : 0 < interval) :
     now < updateNextCheck now off interval ∧ updateNextCheck now off interval ≤ now + interval := by
   have := adj_bounds now off interval hi
   unfold updateNextCheck
@@ -117,34 +124,71 @@ example : updateNextCheck 1000 7 (1 / 2) = 1000 + 1 / 2 := by decide +kernel
 /-- **forced_runs.**  When the scheduler takes a checkable whose `force_next_check` is set, the check is
     dispatched whatever reachability, `enable_active_checks` and the check period say: it moves from idle to
     pending, the flag is cleared and a helper is queued. -/
-theorem forced_runs (s : St) (c : Nat) (now : Int) (r e p : Bool)
+theorem forced_runs (s : St) (c : Nat) (now : Int) (i : SkipIn)
     (hen : schedEnabled s c now) (hf : (s.chk c).forced = true) :
-    ∃ s', step s (.sched c now r e p) = some s' ∧ (s'.chk c).inPending = true ∧ (s'.chk c).inIdle = false ∧
+    ∃ s', step s (.sched c now i) = some s' ∧ (s'.chk c).inPending = true ∧ (s'.chk c).inIdle = false ∧
       (s'.chk c).forced = false ∧ (s'.chk c).hq = (s.chk c).hq + 1 ∧ s'.counter = s.counter + 1 := by
   refine ⟨{ s.upd c (s.chk c).pick with counter := s.counter + 1 }, ?_, ?_⟩
-  · simp [step, hen, Chk.skips, hf]
+  · simp [step, hen, Chk.skipsIn, Chk.skips, hf]
   · simp [St.upd, Chk.pick]
 
 /-- and an unforced check is skipped exactly when unreachable, disabled or outside its period -/
 theorem skip_iff (f r e p : Bool) : Chk.skips f r e p = true ↔ (f = false ∧ (r = false ∨ e = false ∨ p = false)) := by
   cases f <;> cases r <;> cases e <;> cases p <;> decide
 
+/-- **eligible_runs.**  The scheduler's guard set (checkercomponent.cpp:142-176 as transcribed: dependency test, the object's
+    own flag with the global flag of its type — host checks for hosts, service checks for services —, check period) agrees with
+    the property's notion of eligibility (`eligible`, IcingaModel/C04/Spec.lean): whenever the scheduler's section is enabled for
+    a due entry, the check is dispatched (idle → pending, a helper queued, one slot taken) if it is forced or eligible, and
+    otherwise — and only otherwise — it is skipped and stays idle.  "Every active checkable … with active checks enabled and
+    inside its check period is executed": in particular a service is never skipped because of its host's state. -/
+theorem eligible_runs (s : St) (c : Nat) (now : Int) (i : SkipIn) (hen : schedEnabled s c now) :
+    ∃ s', step s (.sched c now i) = some s' ∧
+      (((s.chk c).forced = true ∨ eligible i.isService i.own i.hostChecks i.svcChecks i.inPeriod i.depOk = true) →
+        (s'.chk c).inPending = true ∧ (s'.chk c).inIdle = false ∧ (s'.chk c).hq = (s.chk c).hq + 1 ∧
+          s'.counter = s.counter + 1) ∧
+      (((s.chk c).forced = false ∧ eligible i.isService i.own i.hostChecks i.svcChecks i.inPeriod i.depOk = false) →
+        (s'.chk c).inIdle = true ∧ (s'.chk c).inPending = (s.chk c).inPending ∧ (s'.chk c).hq = (s.chk c).hq ∧
+          s'.counter = s.counter) := by
+  have key : Chk.skipsIn (s.chk c).forced i =
+      (!(s.chk c).forced && !eligible i.isService i.own i.hostChecks i.svcChecks i.inPeriod i.depOk) := by
+    obtain ⟨a, b, d, e, g, h⟩ := i
+    cases (s.chk c).forced <;> cases a <;> cases b <;> cases d <;> cases e <;> cases g <;> cases h <;> rfl
+  cases hsk : Chk.skipsIn (s.chk c).forced i
+  · refine ⟨{ s.upd c (s.chk c).pick with counter := s.counter + 1 }, by simp [step, hen, hsk], ?_, ?_⟩
+    · intro _; simp [St.upd, Chk.pick]
+    · intro ⟨hf, he⟩; rw [key, hf, he] at hsk; simp at hsk
+  · refine ⟨s.upd c (s.chk c).skip, by simp [step, hen, hsk], ?_, ?_⟩
+    · intro h; rw [key] at hsk
+      rcases h with h | h <;> simp [h] at hsk
+    · intro _; simp [St.upd, Chk.skip]
+
+/-- a service whose host is DOWN, with everything else in order, is dispatched: the host's state is not among the facts -/
+example : ((run (init 1 1) [.setActive 0 true, .setPaused 0 false, .objectHandler 0,
+    .sched 0 0 { isService := true, hostChecks := false }]).map fun s => ((s.chk 0).inPending, s.counter)) = some (true, 1) := by
+  decide
+/-- … and a host is skipped when host checks are globally off although its own flag is on -/
+example : ((run (init 1 1) [.setActive 0 true, .setPaused 0 false, .objectHandler 0,
+    .sched 0 0 { hostChecks := false }]).map fun s => ((s.chk 0).inPending, (s.chk 0).inIdle, s.counter)) = some (false, true, 0) := by
+  decide
+
 example : ((run (init 1 1) [.setActive 0 true, .setPaused 0 false, .objectHandler 0, .force 0,
-    .sched 0 0 false false false]).map fun s => ((s.chk 0).inPending, (s.chk 0).forced)) = some (true, false) := by
+    .sched 0 0 { depOk := false, own := false, inPeriod := false }]).map fun s => ((s.chk 0).inPending, (s.chk 0).forced)) = some (true, false) := by
   decide
 
 /-- **progress.**  No stuck state: whenever some checkable is idle and due and a slot is free, the scheduler's
     section is enabled for an idle checkable with the smallest key (which is due as well), whatever the
-    oracle inputs.  Together with `next_check_window` (every execution and every skip re-arms the key at most
-    one interval ahead) this is the model-level content of "keeps being checked". -/
+    recorded facts.  (The model does not apply `UpdateNextCheck` itself — `skip` and `pick` keep `next_check`, the re-arming is a
+    separate `setNextCheck`/`nextCheckChanged` pair whose value the trace validation takes from the implementation and checks
+    against `next_check_window` — so this is absence of a stuck state, not liveness; real-time liveness is measured.) -/
 theorem progress (s : St) (now : Int) (c0 : Nat) (h0 : c0 < s.n) (hi : (s.chk c0).inIdle = true)
     (hdue : (s.chk c0).idleKey ≤ now) (hfree : s.counter < s.max) :
     ∃ c, schedEnabled s c now ∧ (s.chk c).idleKey ≤ (s.chk c0).idleKey ∧
-      ∀ r e p, (step s (.sched c now r e p)).isSome = true := by
+      ∀ i, (step s (.sched c now i)).isSome = true := by
   obtain ⟨c, hc, hic, hle, hmin⟩ := exists_min_idle s s.n (Nat.le_refl _) c0 h0 hi
   have hen : schedEnabled s c now := ⟨hc, hic, by omega, hfree, hmin⟩
   refine ⟨c, hen, hle, ?_⟩
-  intro r e p
+  intro i
   simp only [step, hen, if_true]
   split <;> rfl
 
@@ -152,9 +196,25 @@ example : schedEnabled
     { n := 2, chk := fun i => if i = 0 then { inIdle := true, idleKey := 9 } else { inIdle := true, idleKey := 4 },
       counter := 0, max := 1 } 1 5 := by decide
 
+/-- **sched_takes_earliest.**  No overtaking: whatever entry the scheduler's section takes, no idle checkable has an earlier key — a due
+    check is never passed over in favour of a later one (with `key_tracks_next_check`: in favour of a later `next_check`); and the
+    entry taken is due and a slot was free. -/
+theorem sched_takes_earliest (s s' : St) (c : Nat) (now : Int) (i : SkipIn) (hs : step s (.sched c now i) = some s') :
+    (∀ c0, c0 < s.n → (s.chk c0).inIdle = true → (s.chk c).idleKey ≤ (s.chk c0).idleKey) ∧
+      (s.chk c).idleKey ≤ now ∧ s.counter < s.max := by
+  simp only [step] at hs
+  split at hs
+  · rename_i hen
+    exact ⟨hen.2.2.2.2, hen.2.2.1, hen.2.2.2.1⟩
+  · simp at hs
+
+/-- the later entry cannot be taken while an earlier one is idle, although it is due itself -/
+example : (step (St.mk 2 (fun i => if i = 0 then { inIdle := true, idleKey := 9 } else { inIdle := true, idleKey := 4 }) 0 1)
+    (.sched 0 10 {})).isNone = true := by decide
+
 /-- a skipped or executed checkable stays schedulable: after the scheduler's section it is in exactly one set -/
-theorem sched_keeps_scheduled (s s' : St) (c : Nat) (now : Int) (r e p : Bool)
-    (hs : step s (.sched c now r e p) = some s') :
+theorem sched_keeps_scheduled (s s' : St) (c : Nat) (now : Int) (i : SkipIn)
+    (hs : step s (.sched c now i) = some s') :
     ((s'.chk c).inIdle = true ∧ (s'.chk c).idleKey = (s.chk c).nextCheck ∧ (s'.chk c).inPending = (s.chk c).inPending) ∨
     ((s'.chk c).inIdle = false ∧ (s'.chk c).inPending = true) := by
   simp only [step] at hs
@@ -164,8 +224,79 @@ theorem sched_keeps_scheduled (s s' : St) (c : Nat) (now : Int) (r e p : Bool)
     · right; simp [St.upd, Chk.pick]
   · simp at hs
 
+/-- **pending_has_helper.**  "Never dropped" for the pending set: in every reachable state a checkable that sits in the pending
+    set has a dispatched `ExecuteCheckHelper` that has not passed its final critical section yet — the section that takes it
+    out of the pending set and, if it is still active, back into the idle set (`helperFinish`).  No interleaving of pause,
+    resume, reschedule, force, activation, deactivation and completions strands a checkable in the pending set. -/
+theorem pending_has_helper (n : Nat) (max : Int) (hm : 0 ≤ max) (acts : List Act) (s : St)
+    (hr : run (init n max) acts = some s) (c : Nat) (hp : (s.chk c).inPending = true) :
+    0 < (s.chk c).helpers ∧
+      ((s.chk c).hd > 0 → ((s.upd c (s.chk c).helperFinish).chk c).inPending = false ∧
+        ((s.chk c).active = true → ((s.upd c (s.chk c).helperFinish).chk c).inIdle = true)) := by
+  have h := ((inv_run acts _ s (inv_init n max hm) hr).1 c)
+  refine ⟨by unfold Chk.helpers; exact h.2.2.2.2 hp, ?_⟩
+  intro _
+  have hni : (s.chk c).inIdle = false := by
+    cases hi : (s.chk c).inIdle
+    · rfl
+    · exact absurd ⟨hi, hp⟩ h.1
+  simp only [St.upd, if_true, Chk.helperFinish, hp, Chk.idleInsert]
+  refine ⟨by split <;> simp [*], ?_⟩
+  intro ha; simp [ha, hni]
+
+/-- pending while two helpers are outstanding (dispatch, pause+resume while the command runs, second dispatch) -/
+example : ((run (init 1 4) [.setActive 0 true, .setPaused 0 false, .objectHandler 0, .sched 0 0 {}, .helperGuard 0,
+    .setPaused 0 true, .objectHandler 0, .setPaused 0 false, .objectHandler 0, .sched 0 0 {}]).map
+      fun s => ((s.chk 0).inPending, (s.chk 0).helpers)) = some (true, 2) := by decide
+
+/-- **completion_always_possible.**  "Never dropped", as absence of a dead end: from EVERY reachable state — whatever pauses, resumes,
+    reschedules, forced checks, activations, deactivations and other checkables' events have happened, in whatever order — the
+    completion path of any checkable `c` (guard, result or process exit + result, PluginCheckTask's `+1`, the helper's `-1` and final
+    section) can be run to its end using only `c`'s own actions, each of which is enabled without regard to any other checkable,
+    and in the state reached nothing of `c` is in flight, `c` is not in the pending set, and — if its handlers have run and it is
+    this node's to schedule — it is in the idle set under some key: it will be taken again. -/
+theorem completion_always_possible (n : Nat) (max : Int) (hm : 0 ≤ max) (acts : List Act) (s : St)
+    (hr : run (init n max) acts = some s) (c : Nat) (hc : c < n) :
+    ∃ more s', run (init n max) (acts ++ more) = some s' ∧ (∀ a ∈ more, a.completes c = true) ∧
+      (s'.chk c).settled = true ∧ (s'.chk c).inPending = false ∧
+      ((s'.chk c).synced = true → (s'.chk c).schedulable = true → (s'.chk c).inIdle = true) := by
+  have hn : s.n = n := (run_n_max acts _ s hr).1
+  obtain ⟨more, s', hrun, hall, hset⟩ := settle_exists c (s.chk c).work s (by omega) (Nat.le_refl _)
+  have hfull := run_append _ _ _ _ _ hr hrun
+  have hinv := (inv_run _ _ s' (inv_init n max hm) hfull).1 c
+  have hnp : (s'.chk c).inPending = false := by
+    cases hp : (s'.chk c).inPending
+    · rfl
+    · have := hinv.2.2.2.2 hp
+      simp only [Chk.settled, Chk.helpers, Bool.and_eq_true, beq_iff_eq] at hset
+      omega
+  refine ⟨more, s', hfull, hall, hset, hnp, ?_⟩
+  intro hsy hsc
+  have := (hinv.2.1 hsy).1 hsc
+  simpa [hnp] using this
+
+/-- two helpers outstanding (second dispatch after pause+resume during the first command), one command running: six more
+    actions of checkable 0 and it is settled and idle again -/
+example : ((run (init 1 4) ([.setActive 0 true, .setPaused 0 false, .objectHandler 0, .sched 0 0 {}, .helperGuard 0,
+    .setPaused 0 true, .objectHandler 0, .setPaused 0 false, .objectHandler 0, .sched 0 0 {}] ++
+    [.helperGuard 0, .result 0, .helperDec 0, .helperDec 0, .helperFinish 0, .helperFinish 0])).map
+      fun s => ((s.chk 0).settled, (s.chk 0).inIdle, (s.chk 0).inPending, s.counter)) = some (true, true, false, 0) := by decide
+
+/-- **no_slot_leak.**  In every reachable state in which nothing is in flight — no helper between its dispatch and its final
+    section, no plugin process running, no result on its way — the pending-checks counter is 0: every concurrency slot taken by a
+    dispatch or by PluginCheckTask's own `+1` has been given back, whatever happened to the checkable meanwhile (paused,
+    deactivated, re-added, dispatched again while its process ran). -/
+theorem no_slot_leak (n : Nat) (max : Int) (hm : 0 ≤ max) (acts : List Act) (s : St)
+    (hr : run (init n max) acts = some s) (hq : s.settled = true) : s.counter = 0 :=
+  settled_counter s (inv_run acts _ s (inv_init n max hm) hr) hq
+
+/-- settled again after an asynchronous execution whose checkable was paused while the process ran -/
+example : ((run (init 1 1) [.setActive 0 true, .setPaused 0 false, .objectHandler 0, .sched 0 0 {}, .helperGuard 0, .spawn 0,
+    .setPaused 0 true, .objectHandler 0, .procExit 0, .pluginInc 0, .helperDec 0, .helperFinish 0, .procResult 0]).map
+      fun s => (s.settled, s.counter)) = some (true, 0) := by decide
+
 /-- **model_trace_meets_spec** (the safety part of the property as one statement).  For every number of checkables,
-    every `max_concurrent_checks ≥ 0` and every interleaving of enabled actions inside the property's event alphabet —
+    every `max_concurrent_checks ≥ 0` and every interleaving of enabled actions (passive results at any moment included) —
     scheduler sections with arbitrary clocks and oracle inputs, helper sections, check completions, pause / resume /
     activation / deactivation (attribute writes and handler calls at any distance from each other), next-check
     changes, forced checks — the trace an observer takes from the model (membership at every lock release, the
@@ -173,35 +304,37 @@ theorem sched_keeps_scheduled (s s' : St) (c : Nat) (now : Int) (r e p : Bool)
     IcingaModel/C04/Trace.lean) satisfies the executable specification `specTrace` that the check also evaluates on the
     real scheduler's observations: never in both sets; once an authority-changing operation (pause, resume, activation,
     deactivation) has completed, at every later lock release a checkable that is not this node's to schedule is in neither
-    set and one that is, is in one (until the next such operation begins); no dispatch without a free slot, no forced check skipped, never
+    set and one that is, is in one (until the next such operation begins); no dispatch without a free slot, no forced check skipped,
+    no eligible check (active checks enabled for the object and its type, period open, no failed disable_checks dependency) skipped
+    and no ineligible unforced one executed, never
     two executions of one checkable at once, never more than `max_concurrent_checks` executions, and at quiescence
-    schedulable ⇔ in exactly one set, under its `next_check`.  (`window` observations are covered by
+    schedulable ⇔ in exactly one set, under its `next_check`, nothing left in the pending set once all helpers have finished, and
+    the pending-checks counter back at 0 once nothing is in flight.  (`window` observations are covered by
     `next_check_window`; real-time liveness is measured, not proved.) -/
 theorem model_trace_meets_spec (n : Nat) (max : Int) (hm : 0 ≤ max) (acts : List Act) (tr : List Ev)
-    (hp : ∀ a ∈ acts, a.isPassive = false) (ht : traceOf (init n max) acts = some tr) :
+    (ht : traceOf (init n max) acts = some tr) :
     specTrace { max := max } tr = none :=
-  rel_run acts _ _ tr (rel_init n max hm) (fun _ _ hb => by simp [getKnown] at hb) hp ht
+  rel_run acts _ _ tr (rel_init n max hm) (fun _ _ hb => by simp [getKnown] at hb) ht
 
 /-- the hypotheses are met by a non-trivial run (dispatch, execution, pause while pending, result, finish) and the trace
     it produces is not empty -/
 example : (traceOf (init 2 1) [.setActive 1 true, .setPaused 1 false, .objectHandler 1, .force 1,
-    .sched 1 5 true false true, .helperGuard 1, .setPaused 1 true, .objectHandler 1, .result 1, .helperDec 1,
+    .sched 1 5 { own := false }, .helperGuard 1, .setPaused 1 true, .objectHandler 1, .result 1, .helperDec 1,
     .helperFinish 1]) = some [.opBegin 1, .opBegin 1, .authority 1 true, .loc 1 true false, .slot 0 1,
-      .decision 1 true false, .loc 1 false true, .execStart 1, .opBegin 1, .authority 1 false, .loc 1 false false,
-      .execEnd 1, .loc 1 false false, .quiescent 0 false false false 0 0, .quiescent 1 false false false 0 0] := by decide
+      .decision 1 true false false, .loc 1 false true, .execStart 1, .opBegin 1, .authority 1 false, .loc 1 false false,
+      .execEnd 1, .loc 1 false false, .quiescent 0 false false false 0 0, .quiescent 1 false false false 0 0,
+      .quiescentCounter 0] := by decide
 
 /-- … and by an asynchronous one: the process outlives its helper, exits, and only then delivers its result -/
-example : (traceOf (init 1 1) [.setActive 0 true, .setPaused 0 false, .objectHandler 0, .sched 0 0 true true true,
+example : (traceOf (init 1 1) [.setActive 0 true, .setPaused 0 false, .objectHandler 0, .sched 0 0 {},
     .helperGuard 0, .spawn 0, .pluginInc 0, .helperDec 0, .helperFinish 0, .procExit 0, .procResult 0]).bind
-      (fun tr => some tr.length) = some 11 := by decide
+      (fun tr => some tr.length) = some 12 := by decide
 
-/-- without the alphabet hypothesis the statement is false: the Q-C04 run produces a trace the specification rejects -/
-theorem model_trace_counterexample_with_passive_result :
-    (traceOf (init 1 4) [.setActive 0 true, .setPaused 0 false, .objectHandler 0, .sched 0 0 true true true,
-        .helperGuard 0, .passiveResult 0, .setPaused 0 true, .objectHandler 0, .setPaused 0 false,
-        .objectHandler 0, .sched 0 0 true true true, .helperGuard 0]).bind (fun tr => specTrace { max := 4 } tr)
-      = some .single_flight := by
-  decide
+/-- … and by the run of F-C04c: a passive result while the process runs, then a forced dispatch — the trace passes (no second
+    `execStart`) -/
+example : (traceOf (init 1 4) [.setActive 0 true, .setPaused 0 false, .objectHandler 0, .sched 0 0 {}, .helperGuard 0, .spawn 0,
+    .passiveResult 0, .pluginInc 0, .helperDec 0, .helperFinish 0, .force 0, .sched 0 0 {}, .helperGuard 0]).bind
+      (fun tr => some (specTrace { max := 4 } tr, tr.count (.execStart 0))) = some (none, 1) := by decide
 
 /-! ### the specification predicate is not vacuous -/
 
@@ -209,7 +342,12 @@ example : specTrace { max := 2 } [.execStart 3, .loc 3 false true, .execStart 3]
 example : specTrace { max := 1 } [.execStart 3, .execStart 4] = some .concurrency_bound := by decide
 example : specTrace { max := 1 } [.loc 0 true true] = some .one_location := by decide
 example : specTrace { max := 1 } [.slot 1 1] = some .concurrency_slot := by decide
-example : specTrace { max := 1 } [.decision 0 true true] = some .forced_runs := by decide
+example : specTrace { max := 1 } [.decision 0 true true false] = some .forced_runs := by decide
+example : specTrace { max := 1 } [.decision 0 false true true] = some .eligible_skipped := by decide
+example : specTrace { max := 1 } [.decision 0 false false false] = some .ran_although_disabled := by decide
+example : specTrace { max := 1 } [.decision 0 false true false, .decision 0 true false false, .decision 0 false false true] = none := by decide
+example : specTrace { max := 1 } [.quiescent 0 true false true 0 0] = some .quiescent_pending := by decide
+example : specTrace { max := 1 } [.quiescentCounter 1] = some .slot_leaked := by decide
 example : specTrace { max := 1 } [.window 10 11 10 5] = some .next_check_window := by decide
 example : specTrace { max := 1 } [.quiescent 0 true false false 0 0] = some .quiescent_location := by decide
 example : specTrace { max := 1 } [.opBegin 3, .authority 3 false, .loc 3 true false] = some .scheduled_while_not_responsible := by decide
